@@ -64,6 +64,14 @@ pub(crate) mod verif_mem {
                 ptr: unsafe { GcBoxPtr::new_unchecked(&mut self.0 as *mut GcBox<T>) },
             }
         }
+        /// The object as a `UniqueRoot` (what `Heap::allocate_unique` hands out: one root handle).
+        pub(crate) fn unique_root(&mut self) -> UniqueRoot<T> {
+            let u = UniqueRoot {
+                ptr: unsafe { GcBoxPtr::new_unchecked(&mut self.0 as *mut GcBox<T>) },
+            };
+            u.inc_num_roots();
+            u
+        }
     }
 
     /// Replaces `Heap::collect_if_required` in harnesses whose subject is not the collector: in the
